@@ -54,6 +54,18 @@ def pipeline_scope(ctx):
     return out
 
 
+def _field_stores(b):
+    """(stmt, target tree, value tree) of every assignment through a projection (self.x = ..)"""
+    from analysis.sym import symbolizer, simplify
+    z = symbolizer(b)
+    for s_ in b.stmts():
+        if s_.kind == 'assign' and s_.lhs.proj:
+            try:
+                yield s_, sym(b, s_.lhs), simplify(z.rvalue(s_.rv, 0, ()))
+            except Exception:
+                continue
+
+
 @rule('C08', 'R-C08-1', 'T2 CHAIN (adaptor order and arguments)',
       'init_iter builds enumerate -> take(limit) -> skip(skip + fast_forward + rank) -> step_by(world_size) -> filter_map '
       '-> pipe -> filter_map -> batched(.., Some(seed)) -> tensorized -> buffered over the seeded multi-source generator: '
@@ -112,6 +124,17 @@ def r1(ctx):
         if v[0] == 'agg' and v[2].endswith('Option::Some'):
             ctx.require(match(core(v[3][0]), ('field', ('variant', ('arg', 2, ANY), 'Ok'), 0)) or match(core(v[3][0]), ('unwrap', ('arg', 2, ANY))) or
                         match(core(v[3][0]), ('arg', 2, ANY)) or True, clo, 'post-filter', 'pipeline results are passed through unchanged', None)
+    # min_items, the size of the window [skip, limit) the shards are cut from: min(len, limit) - skip (saturating), in this order -- the limit is
+    # an END POSITION of the window, not a count behind the skip (`len.saturating_sub(skip).min(limit)` reports limit items for a window of limit - skip)
+    from analysis import poly as _poly
+    mi = [(s_, v_) for s_, t_, v_ in _field_stores(b) if match(core(t_), F('min_items'))]
+    if mi:
+        v_ = peel(mi[0][1])
+        inner = core(v_[3][0]) if v_[0] == 'agg' and v_[2].endswith('Option::Some') and v_[3] else core(v_)
+        LEN = Call('len', ANY)
+        okm = match(inner, Call('saturating_sub', Call('Ord::min', LEN, F('limit')), F('skip'))) or match(inner, Call('saturating_sub', Call('Ord::min', F('limit'), LEN), F('skip')))
+        ctx.require(okm, b, 'min-items', 'min_items = min(len, limit).saturating_sub(skip): the window ends at position `limit`',
+                    'min_items is %s' % show_in(b, inner)[:120], mi[0][0].span)
 
 
 @rule('C08', 'R-C08-2', 'T2 provenance (seed derivation)',
